@@ -67,11 +67,13 @@ class Report:
         self.bounded = {}
         self.out_of_reach = []
         self.dead_paths = []
+        self.findings = []
         self.lemma_obs = 0
         self.solver_time = 0.0
 
 
 def proof_part(pid, rep: Report, registry, findings):
+    rep.findings = findings
     from pyvc.verify import verify_function, lemma_obligations
     from pyvc.solve import discharge, model_of
     from pyvc import replay as R
@@ -155,6 +157,12 @@ def handle_refuted(pid, rep, r, o):
     from pyvc.solve import model_of
     from pyvc import replay as R
     info = r.info
+    for f in rep.findings:
+        if f.get("status") == "known" and f.get("property") == pid and f.get("obligation_match") and \
+                all(m in o.name for m in f["obligation_match"]):
+            if f["id"] not in [h["id"] for h in rep.known_hits]:
+                rep.known_hits.append(f)
+            return
     payload = {"function": info.name, "kind": o.kind, "where": o.where, "what": o.info,
                "solver": [list(map(str, d)) for d in (o.details or [])], "goal": str(o.goal)[:2000]}
     native = None
